@@ -21,7 +21,10 @@ func csvQuote(s string) string { return `"` + strings.ReplaceAll(s, `"`, `""`) +
 // WriteCSVDocumented renders the twelve documented columns; text columns are always
 // quoted (legal RFC 4180, and it keeps blanks unambiguous), numbers are plain decimals,
 // body and headers are standard base64; records end with LF or CRLF.
-func WriteCSVDocumented(rs []vegeta.Result, crlf bool) []byte {
+func WriteCSVDocumented(rs []vegeta.Result, crlf bool) []byte { return WriteCSVDocumentedQ(rs, crlf, false) }
+
+// WriteCSVDocumentedQ can also quote the numeric and base64 columns (any field may be quoted in RFC 4180).
+func WriteCSVDocumentedQ(rs []vegeta.Result, crlf, quoteAll bool) []byte {
 	var b bytes.Buffer
 	nl := "\n"
 	if crlf {
@@ -58,6 +61,13 @@ func WriteCSVDocumented(rs []vegeta.Result, crlf bool) []byte {
 			csvQuote(r.URL),
 			hdr,
 		}
+		if quoteAll {
+			for i, c := range cols {
+				if !strings.HasPrefix(c, `"`) {
+					cols[i] = `"` + c + `"`
+				}
+			}
+		}
 		b.WriteString(strings.Join(cols, ",") + nl)
 	}
 	return b.Bytes()
@@ -65,7 +75,10 @@ func WriteCSVDocumented(rs []vegeta.Result, crlf bool) []byte {
 
 // WriteJSONDocumented renders one JSON object per line with the documented field names
 // (encoding/json, keys in sorted order - any order is legal JSON).
-func WriteJSONDocumented(rs []vegeta.Result) ([]byte, error) {
+func WriteJSONDocumented(rs []vegeta.Result) ([]byte, error) { return WriteJSONDocumentedWS(rs, "") }
+
+// WriteJSONDocumentedWS puts insignificant white space in front of every object (legal JSON).
+func WriteJSONDocumentedWS(rs []vegeta.Result, lead string) ([]byte, error) {
 	var b bytes.Buffer
 	for _, r := range rs {
 		m := map[string]any{
@@ -87,6 +100,7 @@ func WriteJSONDocumented(rs []vegeta.Result) ([]byte, error) {
 		if err != nil {
 			return nil, fmt.Errorf("json: %v", err)
 		}
+		b.WriteString(lead)
 		b.Write(line)
 		b.WriteByte('\n')
 	}
